@@ -61,6 +61,7 @@ let () =
         Some (has_row x_leak_rows ["routingtable.ClientManager.RegisterWithOptions"; "routingtable.ClientManager.mu"])
       | ["witness"; "stop-after-cease"] ->
         Some (has_row x_rdv_rows ["server.peer.stop"; "send server.FSM.eventCh"])
+      | ["witness"; "refresh-addpath-nonpropagated"] -> Some false (* regression: must complete *)
       | "stress" :: _ -> Some false
       | _ -> None in
     match expect_deadlock with
